@@ -18,20 +18,20 @@ theorem C02_code_paths_tie :
     Generated.applySkipsOnToken = false ∧ Generated.applyIsPatch = false ∧ Generated.fixReinsertsValue = false := by
   decide
 
-variable {V : Type} [DecidableEq V]
+variable {V : Type} [DecidableEq V] {ra : Bool}
 
 /-- **safety for every schedule, host writes.** The pipeline invariant — for every client, what it
 holds once everything already emitted towards it is applied is the host's value — survives every
 action of every peer (any number of clients). -/
 theorem C02_host_writer_invariant (s : State V) (as : List (Act V)) (hi : HInv s)
-    (ha : ∀ a ∈ as, HostWrites a) : HInv (run false replace s as) :=
+    (ha : ∀ a ∈ as, HostWrites a) : HInv (run ra false replace s as) :=
   (hinv_run s as hi ha).1
 
 /-- **safety for every schedule, a client writes** (two-stage pipeline: writer → host → other clients,
 relay only if changed, never back to the sender). -/
 theorem C02_client_writer_invariant (w : Nat) (s : State V) (as : List (Act V)) (y : Option V)
     (hi : CInvL w y s) (ha : ∀ a ∈ as, ClientWrites w a) :
-    CInvL w (lastWritten y as) (run false replace s as) :=
+    CInvL w (lastWritten y as) (run ra false replace s as) :=
   cinvl_run w s as y hi ha
 
 /-- **C02, one epoch, host writes**: from a drained state in which everybody holds `x`, after any
@@ -39,22 +39,22 @@ interleaving in which only the host writes (consecutive frames, bursts, readers 
 updates in one frame …), once traffic has drained every peer holds the most recent write, and the
 state is drained again. -/
 theorem C02_host_epoch (x : Option V) (s : State V) (as : List (Act V)) (hc : Clean x s)
-    (ha : ∀ a ∈ as, HostWrites a) (hq : Quiescent (run false replace s as)) :
-    Clean (lastWritten x as) (run false replace s as) :=
+    (ha : ∀ a ∈ as, HostWrites a) (hq : Quiescent (run ra false replace s as)) :
+    Clean (lastWritten x as) (run ra false replace s as) :=
   host_epoch_converges x s as hc ha hq
 
 /-- **C02, one epoch, client `w` writes** (client → host → every other client) -/
 theorem C02_client_epoch (w : Nat) (x : Option V) (s : State V) (as : List (Act V))
     (hn : (s.clients.map (·.id)).Nodup) (hw : ∃ c ∈ s.clients, c.id = w) (hc : Clean x s)
-    (ha : ∀ a ∈ as, ClientWrites w a) (hq : Quiescent (run false replace s as)) :
-    Clean (lastWritten x as) (run false replace s as) :=
+    (ha : ∀ a ∈ as, ClientWrites w a) (hq : Quiescent (run ra false replace s as)) :
+    Clean (lastWritten x as) (run ra false replace s as) :=
   client_epoch_converges w x s as hn hw hc ha hq
 
 /-- **C02.** Different peers write the same component at different times, any two writers separated
 by a drain: after the last epoch every peer (host and every client) holds the most recent write. -/
 theorem C02_epochs (x : Option V) (s : State V) (es : List (Epoch V))
-    (hn : (s.clients.map (·.id)).Nodup) (hc : Clean x s) (hok : EpochsOk s es) :
-    Clean (lastWrittenEpochs x es) (runEpochs s es) :=
+    (hn : (s.clients.map (·.id)).Nodup) (hc : Clean x s) (hok : EpochsOk ra s es) :
+    Clean (lastWrittenEpochs x es) (runEpochs ra s es) :=
   epochs_converge x s es hn hc hok
 
 /-- reading `Clean` off: the host and every client hold the value -/
@@ -73,14 +73,14 @@ def C02.d1Witness : List (Act Nat) :=
    .detectC 1, .pollC 2 1, .flushC 2, .detectC 2, .pollC 2 1, .flushC 2, .detectC 2]
 
 theorem C02_false_with_token_skip :
-    (run true replace C02.two C02.d1Witness).host.val = some 7 ∧
-    ((run true replace C02.two C02.d1Witness).clients.map (·.p.val)) = [some 5, some 7] ∧
-    ((run true replace C02.two C02.d1Witness).clients.all (fun c => c.defer.isEmpty && c.down.isEmpty && !c.p.dirty)) = true := by
+    (run false true replace C02.two C02.d1Witness).host.val = some 7 ∧
+    ((run false true replace C02.two C02.d1Witness).clients.map (·.p.val)) = [some 5, some 7] ∧
+    ((run false true replace C02.two C02.d1Witness).clients.all (fun c => c.defer.isEmpty && c.down.isEmpty && !c.p.dirty)) = true := by
   decide
 
 /-- the same history on the repaired semantics converges -/
 theorem C02_same_history_repaired :
-    ((run false replace C02.two C02.d1Witness).clients.map (·.p.val)) = [some 7, some 7] := by decide
+    ((run false false replace C02.two C02.d1Witness).clients.map (·.p.val)) = [some 7, some 7] := by decide
 
 /-- D13 (patching apply on a list-valued component): a write that shortens the list is not adopted -/
 theorem C02_false_with_list_patch :
@@ -88,8 +88,8 @@ theorem C02_false_with_list_patch :
     let as : List (Act (List Nat)) :=
       [.writeH [9, 2, 3], .detectH, .reactH, .pollC 1 1, .flushC 1, .detectC 1,
        .writeH [9], .detectH, .reactH, .pollC 1 1, .flushC 1, .detectC 1]
-    (run false listPatch s0 as).host.val = some [9] ∧
-      ((run false listPatch s0 as).clients.map (·.p.val)) = [some [9, 2, 3]] := by
+    (run false false listPatch s0 as).host.val = some [9] ∧
+      ((run false false listPatch s0 as).clients.map (·.p.val)) = [some [9, 2, 3]] := by
   decide
 
 /-- non-vacuity: a concrete two-epoch history (host writes, then client 2 writes, relayed to client 1)
@@ -99,8 +99,8 @@ def demoEpochs : List (Epoch Nat) :=
    { writer := some 2, acts := [.writeC 2 8, .writeC 2 9, .detectC 2, .reactC 2, .pollH 2 1, .flushH, .detectH,
                                 .pollC 1 1, .flushC 1, .detectC 1] }]
 
-example : (runEpochs C02.two demoEpochs).host.val = some 9 ∧
-    ((runEpochs C02.two demoEpochs).clients.map (·.p.val)) = [some 9, some 9] := by decide
+example : (runEpochs false C02.two demoEpochs).host.val = some 9 ∧
+    ((runEpochs false C02.two demoEpochs).clients.map (·.p.val)) = [some 9, some 9] := by decide
 
 end Props
 end BevySync
